@@ -3,8 +3,9 @@
 What is PROVED (coq/theories/Properties/C14.v, models Decoding/Shapes.v and Decoding/Rowwise.v):
   (A) a tensor-shape calculus with the shape programs of every class of env_embeddings/{context,dynamic,init}.py,
       gather_by_index and the AM decoder's glimpse query, for every batch size B >= 1 (and S starts, size N,
-      width H); `_refuted` theorems where a bare `.squeeze()` loses the batch axis at B = 1; the batch-global
-      first-step test of TSPContext equals its row-wise reading when the rows share the step counter.
+      width H) -- full strength since the bare `.squeeze()` defects were repaired in /repo (81bfd82, 46a31b8; the check
+      still looks for their signatures on every run); the batch-global first-step test of TSPContext equals its
+      row-wise reading when the rows share the step counter.
   (B) `policy_rowwise`: IF encoder and decoder are row-wise (Section hypotheses, with a batch invariant that has to
       be discharged for batch-global constructs) THEN greedy actions (up to padding), reward and log-likelihood
       of an instance are independent of batch size, position and batch-mates (batch size 1 included).
@@ -53,7 +54,6 @@ INIT_COQ = {"TSPInitEmbedding": "ITSP", "MatNetInitEmbedding": "IMatNet", "VRPIn
 # registry keys that are not constructive environments of their own: (layout environment, class) they alias
 INIT_ALIASES = {"matnet": ("atsp", "MatNetInitEmbedding"), "pdp_ruin_repair": ("tsp", "TSPInitEmbedding"),
                 "tsp_kopt": ("tsp", "TSPInitEmbedding")}
-BARE_SQUEEZE = {"SVRPContext", "PDPContext", "MDCPDPContext", "MTSPContext"}
 
 SIG_CRASH_B1 = "%s/%s: crash-at-batch-size-1"
 SIG_Q_SHAPE = "%s/%s: glimpse-query-shape-wrong-at-batch-size-1"
@@ -62,7 +62,9 @@ SIG_DIFF_REWARD = "%s/%s: reward-depends-on-batch"
 SIG_DIFF_LL = "%s/%s: log-likelihood-depends-on-batch"
 SIG_CRASH_BATCH = "%s/%s: crash-in-batch-not-alone"
 SIG_MTSP_REWARD = "mtsp/minmax: get_reward-loses-batch-axis-at-batch-size-1"
-SIG_RANDOM_INIT = "%s/%s: result-depends-on-batch-position-random-init-embedding"
+SIG_RANDOM_INIT = "matnet: result-depends-on-batch-position (random one-hot init embedding drawn from the global RNG)"
+# environments whose reward is excluded from the comparison because a defect of the ENVIRONMENT (C03/C04) makes it batch-dependent
+REWARD_NOT_COMPARED = {"mdcpdp": "MDCPDPEnv accumulates batch row 0's step lengths for every row (known C03/C04 finding, handled by the MDCPDP env unit)"}
 
 
 # ------------------------------------------------------------------------------------------------ Coq literals
@@ -516,31 +518,32 @@ class Recorder:
 
 
 def policy_specs(tier):
-    """(label, env name, N, policy factory kwargs, decode kwargs)"""
-    n = 8 if tier == "quick" else 12
-    small = dict(embed_dim=32, num_heads=2, num_encoder_layers=2)
+    """(label, env name, N, policy factory kwargs, decode kwargs).  quick = one representative per mechanism (every context class
+    once, every policy class once); thorough = the full cross product."""
+    quick = tier == "quick"
+    n = 8 if quick else 12
+    small = dict(embed_dim=32, num_heads=2, num_encoder_layers=1 if quick else 2)
     specs = []
     for e in ("tsp", "cvrp", "cvrptw", "op", "pctsp", "spctsp", "sdvrp", "pdp", "mtsp", "svrp", "smtwtp", "mtvrp", "mdcpdp", "dpp", "mdpp"):
         specs.append(("am", e, n, dict(cls="am", **small), dict(decode_type="greedy")))
-    for e in ("tsp", "cvrp", "sdvrp", "pdp", "svrp", "mdcpdp"):
+    for e in (("pdp", "svrp", "mdcpdp", "mtsp", "cvrp") if quick else ("tsp", "cvrp", "sdvrp", "pdp", "svrp", "mdcpdp", "mtsp", "op")):
         specs.append(("am-no-graph-context", e, n, dict(cls="am", use_graph_context=False, normalization="instance", **small), dict(decode_type="greedy")))
-    for e in ("tsp", "cvrp", "pdp", "sdvrp"):
+    for e in (("tsp", "pdp") if quick else ("tsp", "cvrp", "pdp", "sdvrp")):
         specs.append(("am-multistart", e, n, dict(cls="am", **small), dict(decode_type="multistart_greedy", num_starts=3)))
-    for e in ("tsp", "cvrp", "pdp"):
+    for e in (("pdp",) if quick else ("tsp", "cvrp", "pdp")):
         specs.append(("am-no-graph-context-multistart", e, n, dict(cls="am", use_graph_context=False, normalization="instance", **small),
                       dict(decode_type="multistart_greedy", num_starts=3)))
     specs.append(("ham", "pdp", n, dict(cls="ham", **small), dict(decode_type="greedy")))
     specs.append(("ptrnet", "tsp", n, dict(cls="ptrnet", embed_dim=32, hidden_dim=32), dict(decode_type="greedy")))
     specs.append(("symnco", "tsp", n, dict(cls="symnco", **small), dict(decode_type="greedy")))
-    specs.append(("symnco", "cvrp", n, dict(cls="symnco", **small), dict(decode_type="greedy")))
+    if not quick:
+        specs.append(("symnco", "cvrp", n, dict(cls="symnco", **small), dict(decode_type="greedy")))
     specs.append(("polynet", "tsp", n, dict(cls="polynet", k=3, **small), dict(decode_type="greedy")))
     specs.append(("mdam", "tsp", n, dict(cls="mdam", **small), dict(decode_type="greedy")))
-    # MatNet draws a random one-hot column embedding per batch row: compared with that draw made a function of the instance
-    # ("-derandomised"), and once as shipped for the position experiment
-    specs.append(("matnet-derandomised", "atsp", n, dict(cls="matnet", embed_dim=32, num_heads=2, num_encoder_layers=2), dict(decode_type="greedy")))
+    # MatNet draws a random one-hot column embedding per batch row from the global RNG (open known finding, re-found by
+    # matnet_position_experiment): here that draw is made a function of the instance, so that everything else is compared
+    specs.append(("matnet-derandomised", "atsp", n, dict(cls="matnet", embed_dim=32, num_heads=2, num_encoder_layers=1 if quick else 2), dict(decode_type="greedy")))
     specs.append(("matnet-multistage-derandomised", "ffsp", 4, dict(cls="ffsp", embed_dim=32, num_heads=2, num_encoder_layers=1, test_decode_type="greedy"), dict()))   # phase="test" = greedy
-    specs.append(("matnet", "atsp", n, dict(cls="matnet", embed_dim=32, num_heads=2, num_encoder_layers=2), dict(decode_type="greedy")))
-    specs.append(("matnet-multistage", "ffsp", 4, dict(cls="ffsp", embed_dim=32, num_heads=2, num_encoder_layers=1, test_decode_type="greedy"), dict()))
     specs.append(("l2d", "jssp", 4, dict(cls="l2d", embed_dim=32, num_encoder_layers=2), dict(decode_type="greedy")))
     specs.append(("l2d", "fjsp", 4, dict(cls="l2d", embed_dim=32, num_encoder_layers=2), dict(decode_type="greedy")))
     return specs
@@ -643,7 +646,7 @@ def decode(policy, env, td, dkw, seed=None):
     return {"actions": acts.tolist(), "reward": rew.tolist(), "ll": ll.tolist(), "gaps": rec.gaps(R), "rows": R}
 
 
-def compare_rows(ref, ref_row, got, got_row, tol_gap=1e-4):
+def compare_rows(ref, ref_row, got, got_row, tol_gap=1e-4, check_reward=True):
     """ref/got: outputs of decode.  Returns (status, detail); status in ok / tie / actions / reward / ll."""
     a, b = ref["actions"][ref_row], got["actions"][got_row]
     T = min(len(a), len(b))
@@ -656,7 +659,7 @@ def compare_rows(ref, ref_row, got, got_row, tol_gap=1e-4):
                 return "tie", {"step": t, "gap": min(gs)}
             return "actions", {"step": t, "alone": a[t], "batched": b[t], "top_two_logit_gap": min(gs) if gs else None}
     r1, r2 = ref["reward"][ref_row], got["reward"][got_row]
-    for x, y in zip(r1, r2):
+    for x, y in (zip(r1, r2) if check_reward else ()):
         if abs(x - y) > 1e-5 * max(1.0, abs(x)):
             return "reward", {"alone": r1, "batched": r2}
     l1, l2 = ref["ll"][ref_row], got["ll"][got_row]
@@ -668,19 +671,17 @@ def compare_rows(ref, ref_row, got, got_row, tol_gap=1e-4):
 
 def compositions(rng, pool, tier):
     """batches as lists of pool indices: sizes 2, 3, 7; shuffled; next to copies and strangers."""
-    comps = []
     idx = list(range(pool))
-    comps.append([0, 1])
-    comps.append([3, 0])
-    comps.append([2, 2, 5])                                   # next to a copy of itself
+    comps = [[3, 0], [2, 2, 5]]                                # a stranger first; next to a copy of itself
     p = idx[:]
     rng.shuffle(p)
     comps.append(p[:3])
     q = idx[:]
     rng.shuffle(q)
     comps.append(q)                                            # all 7, shuffled
-    comps.append(list(reversed(idx)))
     if tier == "thorough":
+        comps.append([0, 1])
+        comps.append(list(reversed(idx)))
         for _ in range(6):
             k = rng.choice([2, 3, 7])
             comps.append([rng.randrange(pool) for _ in range(k)])
@@ -720,7 +721,7 @@ def part_c(ctx: Ctx, only=None):
             continue
         S = dkw.get("num_starts", 1)
         DERANDOMISE[0] = label.endswith("-derandomised")
-        random_init = label in ("matnet", "matnet-multistage")
+        check_reward = env_name not in REWARD_NOT_COMPARED
         # --- alone (batch size 1)
         solo, solo_err = {}, {}
         for k in range(pool):
@@ -733,7 +734,7 @@ def part_c(ctx: Ctx, only=None):
         # --- batches
         batch_ok = 0
         first_batch_rows = {}
-        for comp in ([] if random_init else compositions(ctx.rng, pool, tier)):
+        for comp in compositions(ctx.rng, pool, tier):
             try:
                 got = decode(policy, env, td_all[comp], dkw, seed=cseed)
             except Exception as e:
@@ -753,7 +754,7 @@ def part_c(ctx: Ctx, only=None):
                     first_batch_rows[k] = (got, got_rows)
                     continue
                 for rr, gr in zip(ref_rows, got_rows):
-                    status, detail = compare_rows(ref, rr, got, gr)
+                    status, detail = compare_rows(ref, rr, got, gr, check_reward=check_reward)
                     st["comparisons"] += 1
                     n_cmp += 1
                     ctx.seen({"p": key, "k": k, "comp": comp, "pos": pos, "row": gr, "seed": dseed}, nontrivial=B > 1)
@@ -768,7 +769,7 @@ def part_c(ctx: Ctx, only=None):
                                               batched={"actions": got["actions"][gr], "reward": got["reward"][gr], "ll": got["ll"][gr]},
                                               reference="alone (batch size 1)" if k in solo else "first batch containing the instance"), tag="c14")
         # --- batch size 1 must not crash when batches work
-        if solo_err and (batch_ok or random_init):
+        if solo_err and batch_ok:
             k = sorted(solo_err)[0]
             st["alone_error"] = solo_err[k]
             ctx.failure(SIG_CRASH_B1 % (label, env_name), dict(base, instance=k, error=solo_err[k],
@@ -776,21 +777,8 @@ def part_c(ctx: Ctx, only=None):
                         observed="raises at batch size 1; batches of size 2, 3 and 7 containing the same instance decode"), tag="c14")
         elif solo_err and not batch_ok:
             st["status"] = "policy does not run at all in this configuration: %s" % solo_err[sorted(solo_err)[0]]
-        # --- MatNet as shipped: the random one-hot column embedding is drawn per batch row from the global RNG
-        if random_init and 0 in solo:
-            try:
-                a = decode(policy, env, td_all[[1, 0, 2]], dkw, seed=cseed)
-                status, detail = compare_rows(solo[0], 0, a, 1)
-                st["same_instance_other_position"] = status
-                st["comparisons"] += 1
-                if status in ("actions", "reward", "ll"):
-                    ctx.failure(SIG_RANDOM_INIT % (label, env_name), dict(base, composition=[1, 0, 2], instance=0, position=1, difference=detail,
-                                alone={"actions": solo[0]["actions"][0], "reward": solo[0]["reward"][0]},
-                                batched={"actions": a["actions"][1], "reward": a["reward"][1]},
-                                note="torch RNG re-seeded identically before both calls; MatNetInitEmbedding draws torch.rand(b, c) per batch row; "
-                                     "with that draw made a function of the instance (units diff/%s-derandomised) the policy is batch-independent" % label), tag="c14")
-            except Exception as e:
-                st["same_instance_other_position"] = "raises: %s" % str(e)[:100]
+        if not check_reward:
+            st["reward_not_compared"] = REWARD_NOT_COMPARED[env_name]
         st["wall_s"] = round(time.time() - t0, 2)
         if key in summary and "comparisons" in summary[key]:      # accumulate over repetitions
             old = summary[key]
@@ -805,6 +793,44 @@ def part_c(ctx: Ctx, only=None):
     ctx.count("diff_comparisons", n_cmp)
     ctx.count("diff_ties_cut", n_tie)
     return summary
+
+
+def matnet_position_experiment(ctx: Ctx):
+    """Dedicated, deterministic re-finding experiment for the open finding SIG_RANDOM_INIT (fixed seeds, independent of
+    VERIF_SEED): the same ATSP / FFSP instance decoded alone and at position 1 of the batch [1, 0, 2] by MatNet as shipped,
+    with the torch RNG re-seeded identically before both calls.  Candidates are tried in a fixed order until one shows."""
+    import torch
+    DERANDOMISE[0] = False
+    tried = []
+    for (label, env_name, n, pkw, dkw) in (
+            ("matnet", "atsp", 8, dict(cls="matnet", embed_dim=32, num_heads=2, num_encoder_layers=1), dict(decode_type="greedy")),
+            ("matnet-multistage", "ffsp", 4, dict(cls="ffsp", embed_dim=32, num_heads=2, num_encoder_layers=1, test_decode_type="greedy"), dict())):
+        for wseed in (101, 202, 303, 404, 505):
+            base = {"policy": label, "policy_kwargs": pkw, "env": env_name, "size": n, "decode_kwargs": dkw, "weights_seed": wseed,
+                    "data_seed": 7, "call_seed": 11, "pool": 3, "kind": "differential-test"}
+            try:
+                env = build_env(env_name, n)
+                torch.manual_seed(wseed)
+                policy = build_policy(env_name, pkw).eval()
+                torch.manual_seed(7)
+                td_all = env.reset(batch_size=[3])
+                alone = decode(policy, env, td_all[[0]], dkw, seed=11)
+                batched = decode(policy, env, td_all[[1, 0, 2]], dkw, seed=11)
+            except Exception as e:
+                tried.append({"policy": label, "weights_seed": wseed, "status": "raises %s: %s" % (type(e).__name__, str(e)[:100])})
+                continue
+            status, detail = compare_rows(alone, 0, batched, 1)
+            tried.append({"policy": label, "env": env_name, "weights_seed": wseed, "status": status})
+            ctx.seen({"p": "matnet-position", "label": label, "w": wseed}, nontrivial=True)
+            if status in ("actions", "reward", "ll"):
+                ctx.failure(SIG_RANDOM_INIT, dict(base, composition=[1, 0, 2], instance=0, position=1, difference=detail,
+                            alone={"actions": alone["actions"][0], "reward": alone["reward"][0]},
+                            batched={"actions": batched["actions"][1], "reward": batched["reward"][1]},
+                            note="torch RNG re-seeded identically before both calls; MatNetInitEmbedding draws torch.rand(b, c) per batch row; with "
+                                 "that draw made a function of the instance (units diff/matnet-derandomised/*) the policy is batch-independent"), tag="c14")
+                ctx.units["diff/matnet-position-experiment"] = {"kind": "differential-test", "observed": True, "tried": tried}
+                return
+    ctx.units["diff/matnet-position-experiment"] = {"kind": "differential-test", "observed": False, "tried": tried}
 
 
 def improvement_observations(ctx: Ctx):
@@ -887,8 +913,8 @@ def run(ctx: Ctx, proofs_ok: bool):
             if f["B"] == 1:
                 ctx.failure(SIG_MTSP_REWARD, dict(f, kind="mtsp-reward-shape", env="mtsp", size=4,
                                                   expected="MTSPEnv.get_reward on a finished batch of one returns shape [1]",
-                                                  note="td['reward'] is [B]; .squeeze(-1) drops the batch axis at B = 1; ConstructivePolicy.forward then "
-                                                       "fails in td.set('reward', ...) -- hidden behind the MTSPContext crash until that is repaired"), tag="c14")
+                                                  note="td['reward'] is [B]; a .squeeze(-1) on it drops the batch axis at B = 1 and "
+                                                       "ConstructivePolicy.forward then fails in td.set('reward', ...) (fixed by /repo 46a31b8)"), tag="c14")
             continue
         label = "am" if f["graph_context"] else "am-no-graph-context"
         crashes = isinstance(f["decoder_step"], str) and f["decoder_step"].startswith("raises") or (isinstance(f["observed_query"], str))
@@ -911,7 +937,13 @@ def run(ctx: Ctx, proofs_ok: bool):
             ctx.units["diff/" + k] = v
     except Exception:
         ctx.broken.append("differential test C14 crashed: " + traceback.format_exc()[-800:])
+    try:
+        matnet_position_experiment(ctx)
+    except Exception:
+        ctx.broken.append("differential test C14 (matnet position experiment) crashed: " + traceback.format_exc()[-500:])
     ctx.extra["differential_wall_s"] = round(time.time() - t1, 2)
+    for e, why in REWARD_NOT_COMPARED.items():
+        ctx.notes.append("%s: actions and log-likelihood are compared, the reward is not -- %s" % (e, why))
     try:
         ctx.extra.setdefault("out_of_scope_observations", []).extend(improvement_observations(ctx))
     except Exception as e:
@@ -953,6 +985,8 @@ def replay(obj):
         print(json.dumps(obj, indent=1)[:3000])
         return 0
     env = build_env(obj["env"], obj["size"])
+    DERANDOMISE[0] = obj["policy"].endswith("-derandomised")
+    check_reward = obj["env"] not in REWARD_NOT_COMPARED
     torch.manual_seed(obj["weights_seed"])
     policy = build_policy(obj["env"], obj["policy_kwargs"]).eval()
     torch.manual_seed(obj["data_seed"])
@@ -975,7 +1009,7 @@ def replay(obj):
         row = rows_of(pos, len(comp), S)[0]
         print("batched : composition", comp, "position", pos, "actions", got["actions"][row], "reward", got["reward"][row], "ll", got["ll"][row])
         if solo is not None:
-            status, detail = compare_rows(solo, 0, got, row)
+            status, detail = compare_rows(solo, 0, got, row, check_reward=check_reward)
             print("verdict :", status, detail or "")
             rc = rc or (0 if status in ("ok", "tie") else 1)
     except Exception as e:
